@@ -30,7 +30,7 @@ package internalsrv
 //@   loop 2 invariant 0 <= c && c <= 10 && nextCalls == old(nextCalls) + 1 + c && r.URL != nil && forall(k, 0, len(i.Paths), !protected(k))
 //@   loop 2 decreases 10 - c
 
-//@ unit setup_sweep props=C11 files=setup.go nilchecks=on nonnil_params=on dispenser_variants=on filter=`.`
+//@ unit setup_sweep props=C11,C08 files=setup.go nilchecks=on nonnil_params=on dispenser_variants=on filter=`.`
 //@ // Safety sweep of this directive's setup code: index, slice, division, nil-map store, nil dereference, explicit panic,
 //@ // and termination of the loops driven by the token cursor. No functional contract; callees in the dispenser through their contracts.
 //@ use casketfile/contracts_verif.go:dispenser_api
